@@ -67,8 +67,8 @@ import (
 // ttl-clock:pass-incomplete (exact, from the commit log of the wrapped store: a pass that removed something left
 // a document that was already expired when the pass began), ttl-clock:delete-events (≠ exactly one delete event
 // per removed document, or a delete event for a kept or unknown document), ttl-clock:interval-ignored (no
-// scheduler stall and no slow store call seen, yet the quickest of the three groups of "soon" documents waited
-// more than 3 intervals + 200 ms), ttl-clock:index-incoherent (index members ≠ documents [matching the partial
+// scheduler stall and no slow store call seen, yet the median removal latency of the three groups of "soon"
+// documents exceeds 3 intervals + 200 ms), ttl-clock:index-incoherent (index members ≠ documents [matching the partial
 // filter]), ttl-clock:active-after-close, ttl-clock:close-hang, ttl-clock:panic, ttl-clock:setup-failed.
 // The delete events' own wallTime gives a second, tight "removed-fresh" check (wallTime < X − 5 ms) and the
 // latency tags (wallTime − X of the last "soon" removals, in intervals).
@@ -153,7 +153,7 @@ type tcScn struct {
 	blockEnd    int64 // ms: end of the last window in which a session held the write token
 	stallEnd    int64 // ms: end of the last scheduling stall seen by the heartbeat goroutine
 	stalls      int
-	minGroupLat int64 // best removal latency (ms) over the groups of "soon" documents, -1: none
+	medGroupLat int64 // median over the groups of "soon" documents of the removal latency (ms), -1: none
 	latGroups   int
 	errs        int // errors reported through Options.ExpireErrors
 	errText     string
@@ -827,11 +827,15 @@ func (s *tcScn) audit(sn tcSnap) (maxLatency int64) {
 		prevLen, prevEnd = c.oplogLen, c.end
 	}
 	s.tag("dirty-passes:" + tcBucket(passes, 2, 4, 8))
-	s.minGroupLat, s.latGroups = -1, len(groupLat)
-	for _, l := range groupLat {
-		if s.minGroupLat < 0 || l < s.minGroupLat {
-			s.minGroupLat = l
+	// the median of the groups' removal latencies
+	s.medGroupLat, s.latGroups = -1, len(groupLat)
+	if len(groupLat) > 0 {
+		ls := make([]int64, 0, len(groupLat))
+		for _, l := range groupLat {
+			ls = append(ls, l)
 		}
+		sort.Slice(ls, func(i, j int) bool { return ls[i] < ls[j] })
+		s.medGroupLat = ls[len(ls)/2]
 	}
 
 	// index coherence
@@ -1209,24 +1213,24 @@ func ttlclockCase(p tcParams) (c run.Case) {
 			s.tag(fmt.Sprintf("latency:>10-intervals/%s/file=%v/iv=%d/lat=%dms", p.Mode, p.File, p.IvMs, lat))
 		}
 	}
-	// the ExpireInterval itself: when neither a scheduler stall nor a slow store call was seen, not EVERY group
-	// of documents (they expire at three moments spread over 220 ms) can have waited more than 3 intervals +
-	// 200 ms for its pass (measured on the unchanged code: the best group never waited longer than 1 interval +
-	// 25 ms in 640 quiet cases on a loaded machine)
-	if (p.Mode == "timed" || p.Mode == "canary" || p.Mode == "reopen" || p.Mode == "busy") && s.latGroups >= 3 && s.minGroupLat >= 0 {
+	// the ExpireInterval itself: the "soon" documents expire at three moments spread over 220 ms; when neither a
+	// scheduler stall nor a slow store call was seen, the median of the three removal latencies cannot exceed
+	// 3 intervals + 200 ms (measured on the unchanged code: never above 1 interval + 25 ms in 640 quiet cases
+	// on a loaded machine)
+	if (p.Mode == "timed" || p.Mode == "canary" || p.Mode == "reopen" || p.Mode == "busy") && s.latGroups >= 3 && s.medGroupLat >= 0 {
 		quiet := s.stalls == 0 && s.store.slow == 0
-		late := s.minGroupLat > 3*int64(p.IvMs)+200
+		late := s.medGroupLat > 3*int64(p.IvMs)+200
 		switch {
 		case late && quiet:
-			s.tag("best-latency:late/quiet")
-			s.viol("ttl-clock:interval-ignored", "on an undisturbed engine every expired document waited far longer than the configured ExpireInterval for its removal",
-				fmt.Sprintf("%d groups of documents expiring at different moments; the quickest removal came %d ms after the expiry (ExpireInterval %d ms); no scheduler stall, no slow store call seen", s.latGroups, s.minGroupLat, p.IvMs))
+			s.tag("median-latency:late/quiet")
+			s.viol("ttl-clock:interval-ignored", "on an undisturbed engine the expired documents waited far longer than the configured ExpireInterval for their removal",
+				fmt.Sprintf("%d groups of documents expiring at different moments; the median removal came %d ms after the expiry (ExpireInterval %d ms); no scheduler stall, no slow store call seen", s.latGroups, s.medGroupLat, p.IvMs))
 		case late:
-			s.tag("best-latency:late/stalls-seen")
-		case s.minGroupLat > int64(p.IvMs)+50:
-			s.tag("best-latency:>1-interval+50ms")
+			s.tag("median-latency:late/stalls-seen")
+		case s.medGroupLat > int64(p.IvMs)+50:
+			s.tag("median-latency:>1-interval+50ms")
 		default:
-			s.tag("best-latency:<=1-interval+50ms")
+			s.tag("median-latency:<=1-interval+50ms")
 		}
 	}
 	summary = fmt.Sprintf("docs=%d removed=%d soon-removed=%d", total, gone, removedSoon)
